@@ -948,9 +948,15 @@ func orderByBindingsChecker() ClauseHook {
 		}
 		// If dups exist rewrite the order by SortConfig.
 		if dups {
+			orig := s.orderBy
 			s.orderBy = table.SortConfig{}
-			for b, d := range seen {
-				s.orderBy = append(s.orderBy, table.SortConfig{{Binding: b, Desc: d}}...)
+			added := make(map[string]bool)
+			for _, cfg := range orig {
+				if added[cfg.Binding] {
+					continue
+				}
+				added[cfg.Binding] = true
+				s.orderBy = append(s.orderBy, cfg)
 			}
 		}
 		return hook, nil
